@@ -215,6 +215,14 @@ example : PlainDataMsg.deserialize (PlainDataMsg.serialize ⟨[104, 105], [⟨0,
 /-! libotr key file / s-expression reader (Otr.Sexp, Otr.KeyFile; profile `keyfile`) -/
 theorem keyfile_roundtrip : type_of% @Otr.keyfile_roundtrip := @Otr.keyfile_roundtrip
 
+/-- repaired reader: what a successful import returns meets the name half of the round trip's
+    precondition (`Account.wellFormed`) — no double quote in any account name -/
+theorem importKeys_names_no_quote : type_of% @Otr.importKeys_names_no_quote := @Otr.importKeys_names_no_quote
+
+theorem importKeys_names_wellFormed : type_of% @Otr.importKeys_names_wellFormed := @Otr.importKeys_names_wellFormed
+
+theorem readAccountName_no_quote : type_of% @Otr.readAccountName_no_quote := @Otr.readAccountName_no_quote
+
 theorem parseBigHex_fmtX : type_of% @Otr.parseBigHex_fmtX := @Otr.parseBigHex_fmtX
 
 theorem parsePrivateKey_roundtrip : type_of% @Otr.parsePrivateKey_roundtrip := @Otr.parsePrivateKey_roundtrip
